@@ -26,6 +26,7 @@ type Ctx struct {
 	AxiomNames []string
 	// rename tolerance (locals.go)
 	Hints      map[string]*FnVars
+	KnownFns   map[string]bool // in-repo function keys when the locks were written (inline.go)
 	aliasCache map[string]map[string]string
 	aliasMu    sync.Mutex
 }
@@ -70,7 +71,7 @@ func newCtx(repo, verif string) (*Ctx, error) {
 			return nil, err
 		}
 	}
-	c := &Ctx{P: P, S: S, Hints: readHints(verif)}
+	c := &Ctx{P: P, S: S, Hints: readHints(verif), KnownFns: readKnownFns(verif)}
 	if err := c.buildSpecPrelude(); err != nil {
 		return nil, err
 	}
@@ -164,6 +165,7 @@ func (c *Ctx) genWith(fn *ssa.Function, prop string, forbid []Forbid, orderHeaps
 		return c.aliasesFor(f)
 	}
 	g.aliasOf = g.aliasFn(fn)
+	g.knownFns = c.KnownFns
 	if err := g.Generate(); err != nil {
 		return nil, err
 	}
